@@ -555,6 +555,38 @@ theorem conn_exit_after_power_off (c : Case) (hwf : c.wf = true) (s : Session) (
   simp only [teardown, List.mem_reverse, List.mem_flatMap]
   exact ⟨.enter k, hkA, by simp [teardownOf, hf]⟩
 
+/-- **Power off exactly once.**  For a well-formed composition: in every session in which
+    `poweron` of the power step `w` was attempted, `poweroff` is called exactly once (and `poweron`
+    was attempted exactly once). -/
+theorem power_off_exactly_once (c : Case) (hwf : c.wf = true) (s : Session) (m : Mach)
+    (hrc : m.rc = 0) (hb : balanced s.body 0 = true) (w : Nat)
+    (hon : Ev.on w ∈ (runSession c.delay (machSteps c.mro) s m).1.trace) :
+    List.count (.off w) (runSession c.delay (machSteps c.mro) s m).1.trace = 1
+    ∧ List.count (.on w) (runSession c.delay (machSteps c.mro) s m).1.trace = 1 := by
+  have hcnt := power_off_count c.delay (machSteps c.mro) s m hrc hb w
+  have hpos : 0 < List.count (.on w) (runSession c.delay (machSteps c.mro) s m).1.trace :=
+    List.count_pos_iff.mpr hon
+  simp only [Case.wf, Bool.and_eq_true, beq_iff_eq, decide_eq_true_eq] at hwf
+  obtain ⟨⟨⟨⟨⟨hc, hs⟩, hp⟩, hh⟩, hl⟩, _⟩ := hwf
+  have hsteps : machSteps c.mro = specOrder c.mro :=
+    machSteps_eq_specOrder c.mro
+      (by unfold Case.mro; rw [mroFrom_filter_length]; omega)
+      (by unfold Case.mro; rw [mroFrom_filter_length]; omega)
+      (by unfold Case.mro; rw [mroFrom_filter_length]; omega)
+      (by unfold Case.mro; rw [mroFrom_filter_length]; omega)
+  obtain ⟨a, _⟩ := session_spec c.delay (machSteps c.mro) s m hrc hb
+  have hle : List.count (.on w) (runSession c.delay (machSteps c.mro) s m).1.trace ≤ 1 := by
+    rw [← count_noSleep (.on w) rfl, a, count_on_expectedTrace, hsteps]
+    obtain ⟨r, hr⟩ := uptoFirst_prefix (raises s.f) ((specOrder c.mro).flatMap beginEvs)
+    have h1 := count_on_specOrder_le w c.mro
+    rw [hr, List.count_append] at h1
+    have h2 : (c.mro.filter (fun s => s.kind == .power)).length = c.bases.count .power := by
+      unfold Case.mro; exact mroFrom_filter_length .power c.bases 0
+    unfold expectedInit
+    omega
+  omega
+
+
 /-- **powercycle_delay.**  When the class has switched power off at tick `t`, the next `poweron`
     happens at `max now (t + delay)`: never earlier than `delay` ticks after the last completed
     `poweroff`, and without waiting longer than necessary. -/
@@ -584,6 +616,9 @@ example : Spec.C13 ex1 (run ex1) = true := run_spec ex1 (by decide)
 /-- the hypotheses of `conn_exit_after_power_off` are satisfiable (connector 1, power step 3) -/
 example : (⟨1, .conn⟩ : Step) ∈ ex1.mro
     ∧ Ev.on 3 ∈ (runSession ex1.delay (machSteps ex1.mro) { faults := [.exit 4] } {}).1.trace := by decide
+
+/-- `power_off_exactly_once` on the witness: a failing `poweron` is still followed by exactly one `poweroff` -/
+example : List.count (Ev.off 3) ((run ex1).map (·.trace))[0]! = 1 := by decide
 
 /-- the hypothesis of `refused_no_power` is satisfiable and its conclusion is not vacuous:
     with the check passing the same composition does switch the power on -/
